@@ -1,6 +1,6 @@
 (* C17 -- specifications of the level-1 mutators: each preserves the invariant and has the level-0 effect. *)
 From Coq Require Import List NArith ZArith Bool Lia.
-From Muscle Require Import Cont.StrL0 Cont.StrModel Cont.StrLemmas Cont.StrGrow Cont.StrCore.
+From Muscle Require Import Cont.StrL0 Cont.StrModel Cont.StrSpec Cont.StrLemmas Cont.StrGrow Cont.StrCore.
 Import ListNotations.
 Local Open Scope N_scope.
 
